@@ -141,15 +141,18 @@ fn other_containers(h: usize, w: usize, v: &[f64], es: f64) -> Vec<(&'static str
     out
 }
 
-/// ragged nested vectors: every row-length tuple in 0..=3 over 2 and 3 rows with at least one row differing from
-/// the first (this includes tuples whose total equals rows x first length, e.g. (2,1,3)); entries from the request.
-/// Each must be refused (any `Err`), owned and borrowed.
+/// ragged nested vectors: every row-length tuple in 0..=2·rows−1 over 2 and 3 rows, and over 4 rows every tuple that
+/// starts with 4 and totals 16, with at least one row differing from the first.  The range reaches past the row count so
+/// that COMPENSATING tuples exist — (3,1,5), (4,4,3,5): the total equals rows × rows and the first row has the square's
+/// width, which a conversion that checks the total instead of each row would accept (seed C13-s3); entries from the
+/// request.  Each must be refused (any `Err`), owned and borrowed.
 fn ragged_verdict(v: &[f64], es: f64) -> Result<(), String> {
     let pool: Vec<f64> = if v.is_empty() { vec![1.0, 2.0, 3.0] } else { v.to_vec() };
-    for rows in 2..=3usize {
+    for rows in 2..=4usize {
+        let maxlen = 2 * rows - 1;
         let mut lens = vec![0usize; rows];
         loop {
-            if lens.iter().any(|l| *l != lens[0]) {
+            if lens.iter().any(|l| *l != lens[0]) && (rows < 4 || (lens[0] == 4 && lens.iter().sum::<usize>() == 16)) {
                 let mut k = 0usize;
                 let nested: Vec<Vec<f64>> = lens
                     .iter()
@@ -179,7 +182,7 @@ fn ragged_verdict(v: &[f64], es: f64) -> Result<(), String> {
             let mut i = 0;
             while i < rows {
                 lens[i] += 1;
-                if lens[i] <= 3 {
+                if lens[i] <= maxlen {
                     break;
                 }
                 lens[i] = 0;
